@@ -258,6 +258,10 @@ func (c *Client) validateVirtualChannelFundingProposal(
 		return errors.New("virtual channel flag not set")
 	case len(prop.Initial.State.Locked) > 0:
 		return errors.New("cannot have locked funds")
+	case len(prop.Initial.Sigs) != len(prop.Initial.Params.Parts):
+		return errors.New("invalid number of signatures")
+	case prop.Initial.State.NumParts() != len(prop.Initial.Params.Parts):
+		return errors.New("invalid number of balances")
 	}
 
 	// Validate signatures.
@@ -279,6 +283,11 @@ func (c *Client) validateVirtualChannelFundingProposal(
 	// Validate index map.
 	if len(prop.Initial.Params.Parts) != len(prop.IndexMap) {
 		return errors.New("index map: invalid length")
+	}
+	for _, idx := range prop.IndexMap {
+		if int(idx) >= ch.state().NumParts() {
+			return errors.New("index map: invalid entry")
+		}
 	}
 
 	// Assert not contained before
